@@ -1,6 +1,6 @@
 (* C20 — a concrete zone in the grammar of the specification (non-vacuity of the round-trip
-   theorem): directives, @, inherited owner, relative and absolute names, an escaped dot, TTL and
-   class in either order or omitted, parentheses with line breaks and a comment, CRLF, blank and
+   theorem): directives, @, inherited owner, relative and absolute names, an escaped dot, TTL (decimal or with units) and
+   class (any letter case) in either order or omitted, parentheses with line breaks and a comment, CRLF, blank and
    comment lines, a quoted string with escaped quotes, an unquoted string. *)
 From Coq Require Import String Ascii.
 From HV Require Import Lib.Base C20.Model C20.LexProofs C20.FieldProofs C20.LineProofs C20.ZoneProofs.
@@ -12,15 +12,15 @@ Definition ex_origin : list str := [s2l "example"; s2l "com"].
 Definition nm (l : list string) : list str := map s2l l.
 
 Definition ex_lines : list line := [
-  (* $TTL 3600 ; default *)
-  MkLine [] [(IDir DTtl, sp); (w "3600", sp)] (Some (s2l " default")) [10];
+  (* $TTL 1h ; default *)
+  MkLine [] [(IDir DTtl, sp); (w "1h", sp)] (Some (s2l " default")) [10];
   (* @ IN SOA ns1 admin\.mail ( 1 ; serial <nl> 7200 900 <nl> 1209600 300 ) <crlf> *)
   MkLine [] [(IAt, sp); (w "IN", [32; 32]); (w "SOA", [9]); (w "ns1", sp); (w "admin\.mail", sp);
              (IGroup [([LBlank 32], s2l "1");
-                      ([LBlank 32; LComment (s2l " serial") 10; LBlank 32], s2l "7200");
-                      ([LBlank 32], s2l "900");
-                      ([LBlank 10; LBlank 9], s2l "1209600");
-                      ([LBlank 32], s2l "300")] [LBlank 32], [])] None [13; 10];
+                      ([LBlank 32; LComment (s2l " serial") 10; LBlank 32], s2l "2h");
+                      ([LBlank 32], s2l "15M");
+                      ([LBlank 10; LBlank 9], s2l "2w");
+                      ([LBlank 32], s2l "4m60")] [LBlank 32], [])] None [13; 10];
   (* <tab> NS ns1 *)
   MkLine [9] [(w "NS", sp); (w "ns1", [])] None [10];
   (* ns1 60 A 192.0.2.1 *)
@@ -34,7 +34,7 @@ Definition ex_lines : list line := [
   (* $ORIGIN sub.example.com. *)
   MkLine [] [(IDir DOrigin, sp); (w "sub.example.com.", [])] None [10];
   (* www IN CNAME ns1.example.com. ;c *)
-  MkLine [] [(w "www", sp); (w "IN", sp); (w "CNAME", sp); (w "ns1.example.com.", sp)] (Some (s2l "c")) [10]
+  MkLine [] [(w "www", sp); (w "in", sp); (w "Cname", sp); (w "ns1.example.com.", sp)] (Some (s2l "c")) [10]
 ].
 
 Definition ex_recs : list srec := [
@@ -49,32 +49,43 @@ Definition ex_recs : list srec := [
 Lemma ex_zone_toks : ZoneToks (ps0 ex_origin) (map line_tokens ex_lines) ex_recs.
 Proof.
   unfold ex_lines, ex_recs. cbn [map].
-  (* $TTL 3600 *)
-  eapply zt_skip; [apply (lt_ttl _ 3600); vm_compute; discriminate|].
-  (* @ IN SOA ... *)
+  (* $TTL 1h *)
+  eapply zt_skip.
+  { apply (lt_ttl _ 3600 (s2l "1h")); [vm_compute; discriminate|].
+    apply (tt_units 3600 [(1, 104)]); [discriminate|reflexivity]. }
+  (* @ IN SOA ns1 admin\.mail ( 1 2h 15M 2w 4m60 ) *)
   eapply zt_rec.
-  { eapply (lt_rec_eq _ _ [TAt] [TChar (class_text 1)] false
-              [TChar (s2l "ns1"); TChar (s2l "admin\.mail"); TList (map s2l ["1"; "7200"; "900"; "1209600"; "300"]%string)]).
+  { eapply (lt_rec_eq _ _ [TAt] [TChar (s2l "IN")] false (s2l "SOA")
+              [TChar (s2l "ns1"); TChar (s2l "admin\.mail"); TList (map s2l ["1"; "2h"; "15M"; "2w"; "4m60"]%string)]
+              (map s2l ["ns1"; "admin\.mail"; "1"; "2h"; "15M"; "2w"; "4m60"]%string)).
     - apply ot_at. reflexivity.
-    - apply tc_class. reflexivity.
-    - cbn [s_data p_origin ps0]. apply dw_soa.
+    - apply tc_class; reflexivity.
+    - reflexivity.
+    - cbn [s_data p_origin ps0].
+      apply (dw_soa _ _ _ (s2l "ns1") (s2l "admin\.mail") 1 7200 900 1209600 300 (s2l "2h") (s2l "15M") (s2l "2w") (s2l "4m60")).
       + apply (nt_rel_eq _ _ [s2l "ns1"]); [discriminate|reflexivity|reflexivity].
       + apply (nt_rel_eq _ _ [s2l "admin.mail"]); [discriminate|reflexivity|reflexivity].
+      + apply (tt_units 7200 [(2, 104)]); [discriminate|reflexivity].
+      + apply (tt_units 900 [(15, 77)]); [discriminate|reflexivity].
+      + apply (tt_units 1209600 [(2, 119)]); [discriminate|reflexivity].
+      + apply (tt_units_secs 300 [(4, 109)] 240 60); [discriminate|reflexivity|reflexivity].
     - reflexivity.
     - reflexivity. }
   (* <tab> NS ns1 *)
   eapply zt_rec.
-  { eapply (lt_rec_eq _ _ [TBlank] [] false [TChar (s2l "ns1")]).
+  { eapply (lt_rec_eq _ _ [TBlank] [] false (s2l "NS") [TChar (s2l "ns1")] [s2l "ns1"]).
     - apply ot_inherit. reflexivity.
     - apply tc_none; reflexivity.
+    - reflexivity.
     - apply dw_ns. apply (nt_rel_eq _ _ [s2l "ns1"]); [discriminate|reflexivity|reflexivity].
     - reflexivity.
     - reflexivity. }
   (* ns1 60 A 192.0.2.1 *)
   eapply zt_rec.
-  { eapply (lt_rec_eq _ _ [TChar (s2l "ns1")] [TChar (dec 60)] true [TChar (s2l "192.0.2.1")]).
+  { eapply (lt_rec_eq _ _ [TChar (s2l "ns1")] [TChar (dec 60)] true (s2l "A") [TChar (s2l "192.0.2.1")] [s2l "192.0.2.1"]).
     - apply ot_text. apply (nt_rel_eq _ _ [s2l "ns1"]); [discriminate|reflexivity|reflexivity].
-    - apply tc_ttl. reflexivity.
+    - apply tc_ttl; [apply tt_dec|reflexivity].
+    - reflexivity.
     - apply dw_a.
     - reflexivity.
     - reflexivity. }
@@ -82,20 +93,22 @@ Proof.
   eapply zt_skip; [apply lt_blank2|].
   (* txt.example.com. CH 300 TXT "hello \"world\"" plain *)
   eapply zt_rec.
-  { eapply (lt_rec_eq _ _ [TChar (s2l "txt.example.com.")] [TChar (class_text 3); TChar (dec 300)] true
-              [TChar (s2l "hello ""world"""); TChar (s2l "plain")]).
+  { eapply (lt_rec_eq _ _ [TChar (s2l "txt.example.com.")] [TChar (s2l "CH"); TChar (dec 300)] true (s2l "TXT")
+              [TChar (s2l "hello ""world"""); TChar (s2l "plain")] [s2l "hello ""world"""; s2l "plain"]).
     - apply ot_text. apply nt_abs_eq. reflexivity.
-    - apply tc_both2.
+    - apply tc_both2; [apply tt_dec|reflexivity].
+    - reflexivity.
     - apply dw_txt.
     - reflexivity.
     - reflexivity. }
   (* $ORIGIN sub.example.com. *)
   eapply zt_skip; [apply (lt_origin _ (nm ["sub"; "example"; "com"]%string)); reflexivity|].
-  (* www IN CNAME ns1.example.com. *)
+  (* www in Cname ns1.example.com. *)
   eapply zt_rec.
-  { eapply (lt_rec_eq _ _ [TChar (s2l "www")] [TChar (class_text 1)] false [TChar (s2l "ns1.example.com.")]).
+  { eapply (lt_rec_eq _ _ [TChar (s2l "www")] [TChar (s2l "in")] false (s2l "Cname") [TChar (s2l "ns1.example.com.")] [s2l "ns1.example.com."]).
     - apply ot_text. apply (nt_rel_eq _ _ [s2l "www"]); [discriminate|reflexivity|reflexivity].
-    - apply tc_class. reflexivity.
+    - apply tc_class; reflexivity.
+    - reflexivity.
     - apply dw_cname. apply nt_abs_eq. reflexivity.
     - reflexivity.
     - reflexivity. }
@@ -105,3 +118,35 @@ Qed.
 Lemma ex_side : forallb line_ok ex_lines = true /\ forallb srec_ok ex_recs = true /\
   distinct (map denote ex_recs) = true /\ forallb short_line ex_lines = true.
 Proof. vm_compute. auto. Qed.
+
+(* a zone whose last line has no line break and ends right after a word *)
+Definition ex2_lines : list line := [ MkLine [] [(IDir DTtl, sp); (w "1h", [])] None [10] ].
+Definition ex2_last : line := MkLine [] [(w "www", sp); (w "A", sp); (w "192.0.2.7", [])] None [].
+Definition ex2_recs : list srec := [ MkSrec (nm ["www"; "example"; "com"]%string) 1 3600 (SA 192 0 2 7) ].
+
+Lemma ex2_zone_toks :
+  ZoneToks (ps0 ex_origin) (map line_tokens ex2_lines ++ [line_tokens_noeol ex2_last ++ [TEOL]]) ex2_recs.
+Proof.
+  unfold ex2_lines, ex2_last, ex2_recs. cbn [map app].
+  eapply zt_skip.
+  { apply (lt_ttl _ 3600 (s2l "1h")); [vm_compute; discriminate|].
+    apply (tt_units 3600 [(1, 104)]); [discriminate|reflexivity]. }
+  eapply zt_rec.
+  { eapply (lt_rec_eq _ _ [TChar (s2l "www")] [] false (s2l "A") [TChar (s2l "192.0.2.7")] [s2l "192.0.2.7"]).
+    - apply ot_text. apply (nt_rel_eq _ _ [s2l "www"]); [discriminate|reflexivity|reflexivity].
+    - apply tc_none; reflexivity.
+    - reflexivity.
+    - apply dw_a.
+    - reflexivity.
+    - reflexivity. }
+  apply zt_nil.
+Qed.
+
+Lemma ex2_side : forallb good_short ex2_lines = true /\ line_noeol_ok ex2_last = true /\
+  (length (render_noeol ex2_last) <= 2045)%nat /\ forallb srec_ok ex2_recs = true /\
+  distinct (map denote ex2_recs) = true /\
+  render_zone ex2_lines ++ render_noeol ex2_last = s2l "$TTL 1h" ++ [10] ++ s2l "www A 192.0.2.7".
+Proof.
+  split; [vm_compute; reflexivity|]. split; [vm_compute; reflexivity|].
+  split; [cbn; lia|]. split; [vm_compute; reflexivity|]. split; vm_compute; reflexivity.
+Qed.
